@@ -30,5 +30,26 @@ def replay(prop, path):
             print("VIOLATION property=%s replay=%s" % (prop, path))
             return 1
         return 0
-    log("replay file has no replayable payload")
-    return 2
+    # recorded events (trace validation): the exploration that produced the record is deterministic in (tier, seed);
+    # it is run again on the current tree and the violation counts as reproduced when the same signature is reported again
+    import subprocess, sys
+    full = json.load(open(path))
+    tier, seed, sig = full.get("tier", "quick"), full.get("seed", 1), full["signature"]
+    env = dict(os.environ, VERIF_SEED=str(seed), VERIF_REPLAY_RUN="1")
+    r = subprocess.run([os.path.join(ROOT, "bin", "check"), prop, tier], cwd=ROOT, env=env, capture_output=True, text=True)
+    if r.returncode == 2:
+        log(r.stderr[-1500:])
+        return 2
+    again = []
+    for l in r.stdout.splitlines():
+        if l.startswith("VIOLATION"):
+            f = l.split("replay=")[1].strip()
+            try:
+                if json.load(open(f))["signature"] == sig:
+                    again.append(f)
+            except Exception:
+                pass
+    if again:
+        print("VIOLATION property=%s replay=%s" % (prop, path))
+        return 1
+    return 0
